@@ -184,8 +184,11 @@ func genMsg(t *rapid.T, label string, maxSize int) MsgSpec {
 		return MsgSpec{Empty: true}
 	case cls < 10:
 		s.Raw = genSmallBytes.Draw(t, label+"-raw")
-	case cls < 14:
+	case cls < 13:
 		s.Size = rapid.IntRange(25, 4096).Draw(t, label+"-size")
+	case cls < 14:
+		// encoded sizes in the neighbourhood of a power of two (buffer and frame-size boundaries)
+		s.Size = 1<<uint(rapid.IntRange(6, 17).Draw(t, label+"-pow")) + rapid.IntRange(-12, 12).Draw(t, label+"-delta")
 	case cls < 17:
 		s.Size = rapid.IntRange(4097, 70000).Draw(t, label+"-size")
 	default:
@@ -371,6 +374,13 @@ func (e ErrSpec) Build() error {
 		return fmt.Errorf("backend query: %w", context.DeadlineExceeded)
 	case "ok-status-error":
 		return okStatusErr{}
+	case "wrapped-status":
+		// a status error with context added the idiomatic way; Code is never 0 here
+		sp := &spb.Status{Code: int32(e.Code), Message: string(e.Msg)}
+		for _, d := range e.Details {
+			sp.Details = append(sp.Details, d.build())
+		}
+		return fmt.Errorf("lookup failed: %w", status.ErrorProto(sp))
 	}
 	panic("bad ErrSpec kind " + e.Kind)
 }
@@ -412,6 +422,12 @@ func (e ErrSpec) Expected() (code codes.Code, msg string, details []AnySpec) {
 	case "ok-status-error":
 		// any failure will do (see anyFailure); Internal is what httpgrpc documents
 		return codes.Internal, "wrapped upstream status", nil
+	case "wrapped-status":
+		// grpc's status package looks through %w wrapping: the code and details of the wrapped status,
+		// the text of the whole chain (status.FromError is the specification here; the reference
+		// transport reports exactly this)
+		st, _ := status.FromError(e.Build())
+		return st.Code(), st.Message(), e.Details
 	}
 	panic("bad ErrSpec kind")
 }
@@ -449,7 +465,15 @@ func genErr(t *rapid.T, label string) ErrSpec {
 	case k < 9:
 		return ErrSpec{Kind: "plain", Msg: genStatusMsg(t, label+"-msg")}
 	case k < 10:
-		return ErrSpec{Kind: rapid.SampledFrom([]string{"ctx-canceled", "ctx-deadline", "wrapped-ctx-canceled", "wrapped-ctx-deadline", "ok-status-error"}).Draw(t, label+"-ctx")}
+		kind := rapid.SampledFrom([]string{"ctx-canceled", "ctx-deadline", "wrapped-ctx-canceled", "wrapped-ctx-deadline", "ok-status-error", "wrapped-status", "wrapped-status"}).Draw(t, label+"-ctx")
+		if kind == "wrapped-status" {
+			e := ErrSpec{Kind: kind, Code: rapid.Uint32Range(1, 16).Draw(t, label+"-wcode"), Msg: []byte(rapid.StringMatching(`[a-z0-9:+%/ ]{0,12}[a-z]`).Draw(t, label+"-wmsg"))}
+			if rapid.IntRange(0, 2).Draw(t, label+"-whasdet") == 0 {
+				e.Details = append(e.Details, genAny(t, label+"-wdet"))
+			}
+			return e
+		}
+		return ErrSpec{Kind: kind}
 	default:
 		return ErrSpec{Kind: rapid.SampledFrom([]string{"eof", "unexpected-eof"}).Draw(t, label+"-eof")}
 	}
